@@ -268,3 +268,46 @@ contract(M + ':Server.set_state', types={'state': 'State', 'since': 'Real'},
                   'self._state_since == (old(self._state_since) if old(self._state) == state else since)'],
          modifies=['self._state', 'self._state_since', ('Node.free_capacity', 'lambda r: is_bucket(r)')],
          props=['C01', 'C08'])
+
+
+# ------------------------------------------------------------------ tree construction (labels / traits aggregates)
+contract(M + ':Node.add_labels', types={'labels': 'Set[Opt[Name]]'},
+         ensures=[# exact for a server (its own label set is not reachable from the recursive walk up the buckets)
+                  'implies(cls_is(self, "Server"), forall(lambda l: (l in self.labels) == '
+                  '        (l in old(self.labels) or l in labels), "Opt[Name]"))'],
+         modifies=[('Node.labels', 'lambda r: r == self or is_bucket(r)')], props=['C02', 'C03'])
+
+contract(M + ':TraitSet._recalculate', types={},
+         ensures=['(self.traits & self.self_traits) == self.self_traits',
+                  'forall(lambda c: implies(c in self.children_traits, '
+                  '       (self.traits & self.children_traits[c]) == self.children_traits[c]), "Name")'],
+         modifies=['self.traits'], props=['C02', 'C03'])
+invariant(M + ':TraitSet._recalculate', 0, 'for trait in six.itervalues(self.children_traits)',
+          ['(self.traits & self.self_traits) == self.self_traits',
+           'forall(lambda c: implies(c in self.children_traits and _pos(c) < _i, '
+           '       (self.traits & self.children_traits[c]) == self.children_traits[c]), "Name")'])
+
+contract(M + ':Node.add_child_traits', types={'node': 'Node'},
+         modifies=[('TraitSet.traits', 'lambda t: True'), ('TraitSet.children_traits', 'lambda t: True')],
+         requires=['cls_is(self, "Bucket") or cls_is(self, "Cell")'],
+         ensures=['(self.traits.traits & node.traits.traits) == node.traits.traits'],
+         props=['C02'], assumed=True,
+         note='recursive re-aggregation up the chain; frame only (TraitSet objects of other nodes may be '
+              're-aggregated); InvAgg for traits is not yet proved')
+contract(M + ':Node.adjust_valid_until', types={'child_valid_until': 'Opt[Real]'},
+         modifies=[('Node.valid_until', 'lambda r: r == self or is_bucket(r)')], assumed=True,
+         note='recursive max up the chain; frame only')
+
+contract(M + ':Node.add_node', types={'node': 'Node'},
+         requires=['cls_is(self, "Bucket") or cls_is(self, "Cell")', 'node.parent is None',
+                   'node.name not in self.children_by_name', 'node != self'],
+         ensures=['node.parent == self', 'node.name in self.children_by_name and self.children_by_name[node.name] == node',
+                  'len(self.children) == old(len(self.children)) + 1 and self.children[len(self.children) - 1] == node',
+                  # C03: adding a server to a bucket does not change the partition(s) the server belongs to
+                  ('C02,C03', 'implies(cls_is(node, "Server"), node.labels == old(node.labels))')],
+         modifies=['node.parent', 'self.children', 'self.children_by_name',
+                   ('Node.labels', 'lambda r: r == self or is_bucket(r)'),
+                   ('Node.affinity_counters', 'lambda r: r == self or is_bucket(r)'),
+                   ('Node.valid_until', 'lambda r: r == self or is_bucket(r)'),
+                   ('TraitSet.traits', 'lambda t: True'), ('TraitSet.children_traits', 'lambda t: True')],
+         props=['C02', 'C03'])
